@@ -11,13 +11,16 @@ LEVEL_TEXT = ('Lean 4 theorems, for all shapes/offsets/data: extent queries = se
               'embeddings; merge = sum (also for 0-d fields and (1,1) arrays at the origin); reduce terminates within as many merge steps as '
               'there are fields (the Python _disjoint is a loop whose iterations are the model\'s fuel steps), is total, preserves the '
               'total and yields pairwise non-overlapping fields for every collection of positive-shape fields of any size; a product '
-              'fed into merge/reduce keeps emb a · emb b + the rest (product_then_merge/_reduce); boundary = the exact bounding box of '
+              'fed into merge/reduce/insert keeps emb a · emb b (+ the rest) (product_then_merge/_reduce/_insert); reduce leaves a '
+              'pairwise non-overlapping collection unchanged and is idempotent (reduce_of_disjoint, reduce_idempotent); the overlap '
+              'test and product emptiness are symmetric (intersect_comm, mul_empty_comm); boundary = the exact bounding box of '
               'the pixel sets for every non-empty collection of extents within ±(2^63 − 1), the range of the initial value sys.maxsize '
-              '(boundary_is_bbox, hypothesis hM; boundary_is_bbox_general without it), wholly negative ones included; public merge = sum of the two embeddings, refused iff overlap is enforced and no pixel is '
+              '(boundary_is_bbox, hypothesis hM; boundary_is_bbox_general without it), wholly negative ones included, independent of the '
+              'order of the fields and covariant under translation (boundary_order_independent, boundary_translate); public merge = sum of the two embeddings, refused iff overlap is enforced and no pixel is '
               'shared; public overlap = common pixel (2 fields) / reduce leaves one field carrying the total (otherwise) — their '
               'branch tests, the dispatch of __mul__, the merge test of reduce and the step of _disjoint are generated from the '
               'source (Gen.FieldDispatch) and consumed by the models; insert adds '
-              'exactly the part of the embedding inside the target; the NumPy slice pairs of product and insert are in range and of '
+              'exactly the part of the embedding inside the target (insert_emb; on the plane: insert_emb_plane for post 0 = 0); the NumPy slice pairs of product and insert are in range and of '
               'equal shape. Index arithmetic is regenerated from extent.py/field.py on every run; the NumPy array plumbing is a hand '
               'model checked against the implementation on exact Gaussian-integer data, with operand snapshots (inputs byte-identical '
               'afterwards, results share no memory with operands, same call twice = same answer).')
